@@ -309,7 +309,7 @@ func abstractKey(r *sandbox.Repo) string {
 	return "H=" + r.HeadBranch + " " + strings.Join(parts, ",")
 }
 
-var c10Names = []string{"main", "a", "ab", "b", "a.b", "a-b"}
+var c10Names = []string{"main", "a", "ab", "b", "a.b", "a-b", ".a"}
 
 type c10Node struct {
 	snap  *sandbox.Snap
@@ -442,7 +442,7 @@ func runC10(c *core.Ctx) {
 		}
 		k := NewWalker(w, gen.NameOpts{MaxDepth: 1, N: 3}, wts)
 		k.Hostile = 6
-		k.BranchNames = []string{"main", "a", "ab", "b", "a.b", "a-b", "z", "m", "ma", "main2", "A", "0", "x_y", "v1.0", "zz-top", "Main"}
+		k.BranchNames = []string{"main", "a", "ab", "b", "a.b", "a-b", "z", "m", "ma", "main2", "A", "0", "x_y", "v1.0", "zz-top", "Main", ".hotfix", ".a", "_", "a.", "..b", "1", "-x-"[1:]}
 		k.Init()
 		if w.Hist%7 != 0 {
 			k.Do("commit-all")
@@ -864,7 +864,7 @@ func runC20(c *core.Ctx) {
 
 func init() {
 	register(&Prop{ID: "C10", Level: "exploration",
-		Rule:   "(a) breadth-first exploration of the REAL binary as an explicit state space from {fresh repo, one commit on main}: every action over the name alphabet {main,a,ab,b,a.b,a-b} (branch n / -d n / -r n, switch n, switch -c n, update-ref refs/heads/n c for up to 3 commits, macro commit, macro reset --soft HEAD@{1}, branch --list, rev-parse HEAD) applied to every distinct abstract state reached, restoring the concrete sandbox snapshot first; depth 2 (quick) / 4 or 160k transitions (thorough); (b) seeded random walks of 40-60 steps over 16 branch names; oracle: a reference state machine gives accept-with-effect or refuse-without-change for each (state, action), views branch --list / rev-parse must report the stored state; distinct = (action, refuse?, abstract state) triples",
+		Rule:   "(a) breadth-first exploration of the REAL binary as an explicit state space from {fresh repo, one commit on main}: every action over the name alphabet {main,a,ab,b,a.b,a-b,.a} (branch n / -d n / -r n, switch n, switch -c n, update-ref refs/heads/n c for up to 3 commits, macro commit, macro reset --soft HEAD@{1}, branch --list, rev-parse HEAD) applied to every distinct abstract state reached, restoring the concrete sandbox snapshot first; depth 2 (quick) / 4 or 160k transitions (thorough); (b) seeded random walks of 40-60 steps over 16 branch names; oracle: a reference state machine gives accept-with-effect or refuse-without-change for each (state, action), views branch --list / rev-parse must report the stored state; distinct = (action, refuse?, abstract state) triples",
 		Mons:   func() []core.Monitor { return []core.Monitor{C10Mon{}} },
 		Run:    runC10,
 		Floors: []core.Floor{{Key: "C10.transition", Min: 800}, {Key: "C10.refusal-frame", Min: 400}, {Key: "C10.list-view", Min: 30}, {Key: "C10.revparse-view", Min: 30}},
